@@ -36,7 +36,9 @@ def run(ctx):
             {"apps": ["a1"], "hb": True, "frame": "APP"},
             # the first messages of a connection (NETWORK_CONN_ESTABLISHED): Logon, Logout and an application send racing
             {"init": "nce", "apps": ["a1"], "hb": False, "frame": "", "logon": True, "logout": True},
-            {"init": "nce", "apps": [], "hb": False, "frame": "LOGON", "logon": True, "logout": True}]
+            {"init": "nce", "apps": [], "hb": False, "frame": "LOGON", "logon": True, "logout": True},
+            # a sender racing the reader while it finalizes the gap fill that ends RESENDREQ_AWAITING
+            {"init": "awaiting", "apps": ["a1", "a2"], "hb": False, "frame": "GAPCLOSE"}]
     if not q:
         cfgs.append({"apps": ["a1", "a2", "a3"], "hb": True, "frame": "RR"})
         cfgs.append({"apps": ["a1", "a2", "a3"], "hb": False, "frame": "GAP"})
